@@ -360,6 +360,8 @@ def check_decode_adaptors(ctx, F):
             continue
         decs = [e for e in p.events if e['kind'] == 'call' and e['callee'] == DEC + '::decode_symbol']
         sh = rules.ret_shape(p.ret)
+        if p.ret is not None and p.ret[0] == 'err_of' and isinstance(p.ret[1], tuple) and p.ret[1] and p.ret[1][0] == 'call' and str(p.ret[1][1]).startswith('core::num::') and str(p.ret[1][1]).endswith(('::checked_sub', '::checked_add')):
+            sh = ('None',)        # `amt.checked_sub(1)?` in a function returning Option: the residual of a None is None
         amt_f = ev.final_read(p, AMT)
         d = rules.path_dbm(p)
         if sh[0] == 'Some':
